@@ -10,8 +10,8 @@
 //        the tuple, and of the tuple with operand i replaced by the memory operand the RW info claims possible).
 //     F arch id options extra nops op...     -> "F <err> <feature ids sorted...>"  (query_features)
 //     A id nops op...                        -> same answer format as Q for the AArch64 query_rw_info ("## v=" = a64 validator)
-//        op := v<arr>:<id> (arr in b8 b16 h2 h4 h8 s2 s4 d1 d2) | s<b|h|s|d|q>:<id> (scalar view) | e<b|h|s|d>:<id>:<index> (vector element) | x:<id> | w:<id>
-//              | m:<baseid>:<mode 0 [xN], 1 [xN, xM] post-index, 2 [xN], #off post-index, 3 [xN, #off]! pre-index, 4 [xN, #off], 5 [xN, xM]>[:<off, default 16>] | i<value>
+//        op := v<arr>:<id> (arr in b8 b16 h2 h4 h8 s2 s4 d1 d2) | s<b|h|s|d|q>:<id> (scalar view) | e<b|h|s|d|q=4B|p=2H>:<id>:<index> (vector element) | x:<id> | w:<id>
+//              | m:<baseid>:<mode 0 [xN], 1 [xN, xM] post-index, 2 [xN], #off post-index, 3 [xN, #off]! pre-index, 4 [xN, #off], 5 [xN, xM], 6 [label]>[:<off, default 16>] | i<value>
 //   c12_harness dumpa64         -> "AI <id> <name> <rw_info_index> <flags>", "AR <i> r0..r5" (inst_rw_info_table), "AK <name> <value>"
 #include <asmjit/core.h>
 #include <asmjit/x86.h>
@@ -267,6 +267,8 @@ static void dump_a64() {
   }
   printf("AK kInstFlagConsecutive %u\n", uint32_t(InstDB::kInstFlagConsecutive));
   printf("AK kRealId %u\n", uint32_t(InstIdParts::kRealId));
+  printf("AK kIdTbl_v %u\n", uint32_t(Inst::kIdTbl_v));
+  printf("AK kIdTbx_v %u\n", uint32_t(Inst::kIdTbx_v));
   for (uint32_t i = 0; i < 8; i++) printf("AE %u %u\n", i, InstInternal::element_type_size_table[i]);
 }
 
@@ -289,6 +291,8 @@ static bool parse_a64_op(const std::string& t, Operand_& out) {
     if (sscanf(t.c_str(), "e%c:%u:%u", &k, &id, &idx) != 3) return false;
     Vec v(Vec::make_v128(id));
     if (k == 'b') out = v.b(idx); else if (k == 'h') out = v.h(idx); else if (k == 's') out = v.s(idx); else if (k == 'd') out = v.d(idx);
+    else if (k == 'q') out = v.b4(idx);      // 4B[idx]
+    else if (k == 'p') out = v.h2(idx);      // 2H[idx]
     else return false;
     return true;
   }
@@ -322,6 +326,7 @@ static bool parse_a64_op(const std::string& t, Operand_& out) {
       case 3: out = ptr_pre(base, off); break;
       case 4: out = ptr(base, off); break;
       case 5: out = ptr(base, idx); break;
+      case 6: { Label L; L.set_id(0); out = ptr(L); break; }     // [PC, #off]
       default: return false;
     }
     return true;
